@@ -96,6 +96,10 @@ Definition columns_once_b (cf rtl : bool) (n : nat) (cc : Z) (grid : list (list 
   && zlist_eqb (nonblank (firstn n (concat grid))) (firstn n (concat grid))
   && (n <=? length (concat grid))%nat.
 
+(* rendering the SAME object again gives the same lines / the same grid (no exhaustion, no aliasing) *)
+Definition same_render_b (a b : list str) : bool := list_eqb str_eqb a b.
+Definition same_grid_b (a b : list (list Z)) : bool := list_eqb zlist_eqb a b.
+
 (* ---- Tree: expected = (depth, label lines) in depth-first order; every output line is a prefix of
    exactly 4*depth cells followed by the label line *)
 Definition tree_line_b (d : Z) (lab ln : str) : bool :=
